@@ -169,6 +169,38 @@ def slice_(t, sl):
     return normalize(atoms[lo:len(atoms) - k] if k else atoms[lo:])
 
 
+def strip(t, chars, left=True, right=True):
+    """str.strip(chars) / lstrip / rstrip on a structured string: characters of the set are removed from the ends;
+    decided when the first atom that stops the stripping is a literal, a digit field (set without digits) or a
+    field none of whose characters is in the set"""
+    if chars is None:
+        chars = " \t\n\r\f\v"
+    cs = set(chars)
+    atoms = atoms_of(t)
+
+    def stops(a):
+        if isinstance(a, str):
+            return a not in cs
+        if isinstance(a, Opaque):
+            fc = a.first_chars | a.last_chars
+            if fc & cs:
+                raise Unsupported("strip reaches into the text form of another value")
+            return True
+        if can_be_empty(a):
+            raise Unsupported("strip next to a field that can be empty")
+        if not (field_chars(a) & cs):
+            return True
+        raise Unsupported("strip reaches into a field")
+    lo, hi = 0, len(atoms)
+    if left:
+        while lo < hi and not stops(atoms[lo]):
+            lo += 1
+    if right:
+        while hi > lo and not stops(atoms[hi - 1]):
+            hi -= 1
+    return normalize(atoms[lo:hi])
+
+
 def startswith(t, prefix):
     atoms = atoms_of(t)
     for i, c in enumerate(prefix):
